@@ -371,10 +371,28 @@ fn exec_once<H: Harness + ?Sized>(h: &H, prefix: Vec<Pt>, cfg: &Config, log: boo
     }
 }
 
-fn panic_class(msg: &str) -> String {
+pub fn panic_class(msg: &str) -> String {
     // keep the message (without numbers that vary with the input) + location as the class
-    let short: String = msg.chars().take(160).collect();
-    format!("panic: {short}")
+    // digits inside the message are replaced by `#` so that one defect is one class; the location
+    // (file:line after ` @ `) is kept as it is
+    let (m, loc) = match msg.rfind(" @ ") {
+        Some(i) => (&msg[..i], &msg[i..]),
+        None => (msg, ""),
+    };
+    let mut short = String::new();
+    let mut prev_digit = false;
+    for c in m.chars().take(160) {
+        if c.is_ascii_digit() {
+            if !prev_digit {
+                short.push('#');
+            }
+            prev_digit = true;
+        } else {
+            short.push(c);
+            prev_digit = false;
+        }
+    }
+    format!("panic: {short}{loc}")
 }
 
 struct Shared<'a, H: ?Sized> {
@@ -782,11 +800,27 @@ pub fn sweep<F>(phase: &str, n: u64, cfg: &Config, body: F) -> Stats
 where
     F: Fn(u64, &mut Sink<'_>) + Sync,
 {
+    sweep_range(phase, 0, n, cfg, body)
+}
+
+/// Re-run exactly one case of a sweep (replay of a recorded counterexample).
+pub fn sweep_one<F>(phase: &str, idx: u64, cfg: &Config, body: F) -> Stats
+where
+    F: Fn(u64, &mut Sink<'_>) + Sync,
+{
+    let cfg = Config { threads: 1, ..cfg.clone() };
+    sweep_range(phase, idx, idx + 1, &cfg, body)
+}
+
+pub fn sweep_range<F>(phase: &str, first: u64, n: u64, cfg: &Config, body: F) -> Stats
+where
+    F: Fn(u64, &mut Sink<'_>) + Sync,
+{
     let start = Instant::now();
-    let next = AtomicU64::new(0);
+    let next = AtomicU64::new(first);
     let stop = AtomicBool::new(false);
     let threads = cfg.threads.max(1);
-    let chunk = ((n / (threads as u64 * 64)).max(1)).min(4096);
+    let chunk = (((n - first) / (threads as u64 * 64)).max(1)).min(4096);
     let locals: Vec<SweepLocal> = std::thread::scope(|s| {
         let hs: Vec<_> = (0..threads)
             .map(|_| {
